@@ -205,6 +205,7 @@ def copy_text_lengths_sql(
 
 
 def insert_table_comment_sql(catalog: str, schema: str, table: str, comment: str) -> str:
+    comment = comment.replace("'", "''")
     return f"""
         INSERT INTO {catalog}.information_schema._fs_tables_ext
         values ('{catalog}', '{schema}', '{table}', '{comment}')
